@@ -22,6 +22,11 @@ type World struct {
 	mu    sync.Mutex
 	met   int
 	Trace []types.MalType
+	// Cancel, when set, is what the harness builtin (cancel!) calls: the cancel function of the
+	// context the current evaluation was given
+	Cancel func()
+	// TraceLimit > 0: (trace! x) fails once the trace is that long (stops runaway evaluations)
+	TraceLimit int
 }
 
 // NewWorld builds an environment with core, load-file, concurrent and coreextended
@@ -51,9 +56,19 @@ func NewWorld() (*World, error) {
 			}
 		}
 		w.mu.Lock()
+		if w.TraceLimit > 0 && len(w.Trace) >= w.TraceLimit {
+			w.mu.Unlock()
+			return nil, fmt.Errorf("harness: trace limit reached (runaway evaluation)")
+		}
 		w.Trace = append(w.Trace, a[0])
 		w.mu.Unlock()
 		return a[0], nil
+	}})
+	w.Env.Set(types.Symbol{Val: "cancel!"}, types.Func{Fn: func(_ context.Context, a []types.MalType) (types.MalType, error) {
+		if w.Cancel != nil {
+			w.Cancel()
+		}
+		return nil, nil
 	}})
 	// (yield!) gives the processor away: widens the windows between the steps of an operation
 	w.Env.Set(types.Symbol{Val: "yield!"}, types.Func{Fn: func(_ context.Context, a []types.MalType) (types.MalType, error) {
